@@ -1,0 +1,59 @@
+//go:build verif
+
+// Contracts checked by /verif/govc (comment-only file; see /verif/DESIGN.md, property C40).
+package watcher
+
+//@ # Changes is a monitor: mutex protects the contents of changed and mods and the ghost bookkeeping below.
+//@ #   unf[p][d]  d was reported since it was last fetched (the abstract set of pending directories)
+//@ #   rep[p][d]  number of reports of d so far;  fet[p][d]  number of times Fetch returned d so far
+//@ ghost held array[*Changes]bool
+//@ ghost unf array[*Changes]array[string]bool
+//@ ghost rep array[*Changes]array[string]int
+//@ ghost fet array[*Changes]array[string]int
+//@ ghost lastFetched string
+//@ ghost nfetch int
+//@ ghost wakeups int
+//@ pred monInv(p *Changes) := p.changed != nil && p.mods != nil &&
+//@        (forall d string :: has(p.changed, d) <==> unf[p][d]) &&
+//@        (forall d string :: fet[p][d] + b2i(unf[p][d]) <= rep[p][d])
+//@ monitor Changes mutex=mutex cond=cond held=held protects=changed,mods ghosts=unf,rep,fet inv=monInv
+//@
+//@ func (*Changes).FileChanged
+//@   requires p != nil && !held[p]
+//@   assigns held, unf, rep, fet, wakeups, mapof(p.changed), mapof(p.mods)
+//@   at mapupdate #1 set unf = store(unf, p, store(unf[p], dir, true))
+//@   at mapupdate #1 set rep = store(rep, p, store(rep[p], dir, rep[p][dir] + 1))
+//@   at call Broadcast#1 set wakeups = wakeups + 1
+//@   at return assert [wake-iff-was-empty] wakeups == old(wakeups) + (n == 0 ? 1 : 0)
+//@   ensures [lock-released] held == old(held)
+//@
+//@ func (*Changes).Fetch
+//@   requires p != nil && !held[p]
+//@   assigns held, unf, rep, fet, lastFetched, nfetch, mapof(p.changed), mapof(p.mods)
+//@   at call delete#1 assert [returns-only-pending] unf[p][dir]
+//@   at call delete#1 set fet = store(fet, p, store(fet[p], dir, fet[p][dir] + 1))
+//@   at call delete#1 set unf = store(unf, p, store(unf[p], dir, false))
+//@   at call delete#1 set lastFetched = dir
+//@   at call delete#1 set nfetch = nfetch + 1
+//@   ensures [lock-released] held == old(held)
+//@   ensures [one-directory-taken] nfetch == old(nfetch) + 1
+//@   ensures [returns-what-it-took] !fullPath ==> result == lastFetched
+//@   ensures [returns-what-it-took-full] fullPath ==> result == p.root + lastFetched
+//@ loop (*Changes).Fetch#1
+//@   invariant held == store(old(held), p, true) && monInv(p) && nfetch == old(nfetch)
+//@
+//@ # the other critical sections of the same mutex: they must keep the invariant too
+//@ func (*Changes).deleteMod
+//@   requires p != nil && !held[p]
+//@   assigns held, unf, rep, fet, mapof(p.changed), mapof(p.mods)
+//@   ensures [lock-released] held == old(held)
+//@
+//@ func (*Changes).EntryDeleted
+//@   requires p != nil && !held[p]
+//@   assigns held, unf, rep, fet, wakeups, mapof(p.changed), mapof(p.mods)
+//@   ensures [lock-released] held == old(held)
+//@
+//@ func (*Changes).lookupMod
+//@   requires p != nil && !held[p]
+//@   assigns held, unf, rep, fet, mapof(p.changed), mapof(p.mods), debugMod
+//@   ensures [lock-released] held == old(held)
